@@ -306,7 +306,7 @@ func (ex *Explorer) RunHarness(h *ssa.Function, name string) {
 			in := NewInterp(ex.Prog, ex.cfg, ex)
 			in.harness = name
 			solverName := ex.SolverName
-			if strings.Contains(name, "_fp_") {
+			if strings.Contains(name, "_fp_") || strings.Contains(name, "_cvc5_") {
 				solverName = "cvc5" // floating-point harness: cvc5 decides IEEE-754 queries that stall z3
 			}
 			s, err := NewSolver(solverName, in.st, ex.TimeoutMs)
